@@ -8,7 +8,7 @@ package mpb
 // struct invariants (DESIGN.md 2.6): established by every allocating function, fields
 // written only during construction, assumed for every non-nil pointer that enters a function
 
-//@ typeinv Bar props C02 C09 self.cancel != nil && self.frameCh != nil && self.operateState != nil && self.bsOk != nil && self.container != nil && self.ctx != nil
+//@ typeinv Bar props C02 C09 self.cancel != nil && self.frameCh != nil && self.operateState != nil && self.bsOk != nil && self.container != nil && self.ctx != nil && !isext(self.bsOk)
 
 //@ func newBar
 //@   props    C02 C09
@@ -587,6 +587,7 @@ package mpb
 //@   props    C12 C15 C02
 //@   requires forall(i, 0, len(column), column[i] != nil)
 //@   requires distinct: forall(i, 0, len(column), pos(column[i]) == i)
+//@   assumes  typed: forall(i, 0, len(column), column[i] != drop)
 //@   modifies sent(), recvd()
 //@   loop 1   invariant maxWidth >= 0
 //@   loop 1   invariant forall(j, 0, rangeindex + 1, recvd(column[j]) == old(recvd(column[j])) + 1 && lastRecvd(column[j]) <= maxWidth)
@@ -825,6 +826,7 @@ package mpb
 //@              && (frame.shutdown != 1 ==> called("Bar.cancel") == iter(called("Bar.cancel")))
 //@   loop 1   ensures priority@C06: frame.shutdown != 1 ==> s.popPriority == iter(s.popPriority) && b.priority == iter(now(b).priority)
 //@   loop 1   ensures clip@C04: usedRows == min(len(frame.rows), height - iter(len(rows))) && len(rows) == iter(len(rows)) + usedRows
+//@   loop 1   ensures shown@C18: frame.shutdown == 2 && s.popCompleted && !frame.noPop ==> usedRows == len(frame.rows)
 //@   loop 1   ensures nopoponkeep@C18: !(frame.shutdown == 2 && s.popCompleted && !frame.noPop) ==> popCount == iter(popCount)
 //@   loop 2   invariant forall(k, 0, len(pushes), pushes[k].bar != nil) && !closed(s.hm)
 //@   loop 3   invariant -1 <= i && i < len(frame.rows) && usedRows >= 0 && len(rows) <= height
@@ -840,6 +842,7 @@ package mpb
 //@   loop 5   invariant called("(heapManager).push") == entry(5, called("(heapManager).push")) && popCount == entry(5, popCount) && rows == entry(5, rows)
 //@   loop 5   ensures whole@C13,C04: written(cw.Buffer) == iter(written(now(cw.Buffer))) + iter(content(now(rows[i + 1])))
 //@   loop 5   decreases i + 1
+//@   ensures  rowsfit@C04: len(rows) <= height
 //@   ensures  flushed@C04,C18,C13: result == nil ==> called("(*Writer).Flush") == old(called("(*Writer).Flush")) + 1 && calledWith("(*Writer).Flush", 1) == len(rows) - popCount
 //@   ensures  allpushed@C05: result == nil ==> called("(heapManager).push") == old(called("(heapManager).push")) + len(pushes)
 //@   ensures  errdrop@C15: closed(s.iterDrop) ==> result != nil && called("(*Writer).Flush") == old(called("(*Writer).Flush"))
@@ -852,11 +855,12 @@ package mpb
 //@ functype ContainerOption
 //@   props    C02 C05 C04
 //@   params   s
+//@   ensures  s.delayRC != s.iterDrop
 //@   modifies pState.uwg, pState.reqWidth, pState.hmQueueLen, pState.refreshRate, pState.manualRC, pState.delayRC, pState.shutdownNotifier, pState.output, pState.debugOut, pState.autoRefresh, pState.popCompleted
 
 //@ func NewWithContext
 //@   props    C02 C05 C04
-//@   loop 1   invariant s != nil && s.iterDrop != nil && s.renderReq != nil && s.queueBars != nil && s.ctx != nil && fresh(s)
+//@   loop 1   invariant s != nil && s.iterDrop != nil && s.renderReq != nil && s.queueBars != nil && s.ctx != nil && fresh(s) && s.delayRC != s.iterDrop && !isext(s.iterDrop)
 
 // ---------------------------------------------------------------------------------------
 // creating bars (C09 initial state, C05/C17 accounting, C06 default priority)
@@ -945,10 +949,6 @@ package mpb
 //@   ensures  result.Completed == s.completed() && result.Aborted == s.aborted
 //@   ensures  exclusive@C11: !(result.Completed && result.Aborted)
 
-//@ functype bState.extender
-//@   params   stat rows
-//@   modifies pkgstate("decor"), content(), written(), bFiller.tip, sFiller.count, sent("chan int"), recvd("chan int")
-
 //@ iface BarFiller.Fill
 //@   params   w stat
 //@   requires 0 <= stat.AvailableWidth
@@ -975,6 +975,7 @@ package mpb
 //@   ensures  running@C03: lastSent(b.frameCh).err == nil && !(s.aborted || s.completed())
 //@              ==> lastSent(b.frameCh).shutdown == 0 && s.shutdown == old(s.shutdown)
 //@   ensures  stable@C11: s.aborted == old(s.aborted) && s.total == old(s.total) && s.current == old(s.current) && s.triggerComplete == old(s.triggerComplete)
+//@   ensures  nosend@C10: sent(b.operateState) == old(sent(b.operateState))
 
 // Bar.serve: operations are applied one at a time by the owner (A-ACT rests on this being
 // the only receiver of operateState); on cancellation every shutdown-listening decorator,
@@ -1054,6 +1055,8 @@ package mpb
 //@              && calledWith("(heapManager).sync", 1) == s.iterDrop && calledWith("(heapManager).iter", 1) == s.iterDrop
 //@   ensures  size@C04: !cw.terminal && called("(*pState).flush") == old(called("(*pState).flush")) + 1
 //@              ==> calledWith("(*pState).flush", 2) == ite(s.reqWidth > 0, s.reqWidth, 80)
+//@   ensures  fits@C04: cw.terminal && called("(*pState).flush") == old(called("(*pState).flush")) + 1
+//@              ==> calledWith("(*pState).flush", 2) <= max(returned("(*Writer).GetTermSize", 1) - 1, 0)
 //@   ensures  noframe@C15: cw.terminal && returned("(*Writer).GetTermSize", 2) != nil ==> called("(*pState).flush") == old(called("(*pState).flush")) && err != nil
 
 // operations and writes handed to the container goroutine (static obligation chan-frame for
@@ -1085,10 +1088,13 @@ package mpb
 
 //@ func (*Progress).serve
 //@   props    C03 C04 C13 C14 C15 C05 C02
-//@   requires p != nil && s != nil && cw != nil && !closed(s.hm) && !closed(s.iterDrop) && wkey(cw.out) != cw.Buffer && p.cancel != nil
+//@   requires p != nil && s != nil && cw != nil && wkey(cw.out) != cw.Buffer && p.cancel != nil
+//@   requires s.iterDrop != p.done && s.iterDrop != s.delayRC
+//@   assumes  owner: !closed(s.hm) && !closed(s.iterDrop)
 //@   requires parked: forall(k, has(s.queueBars, k) ==> s.queueBars[k] != nil)
 //@   loop 1   invariant errstop@C15: err != nil ==> renderReq == nil && operateState == nil && interceptIO == nil
 //@   loop 1   invariant err == nil ==> !closed(s.iterDrop)
+//@   loop 1   invariant s.iterDrop != p.done && s.iterDrop != s.delayRC && s.iterDrop == old(s.iterDrop) && p.done == old(p.done)
 //@   loop 1   invariant !closed(s.hm) && w != nil && wkey(w.out) != w.Buffer && s == in(s) && p == in(p)
 //@   loop 1   invariant forall(k, has(s.queueBars, k) ==> s.queueBars[k] != nil)
 //@   loop 1   invariant delay@C04: (s.delayRC != nil ==> cw != nil && cw == in(cw) && w != in(cw) && w.out == global("io.Discard")) && (s.delayRC == nil ==> w == in(cw))
@@ -1122,3 +1128,244 @@ package mpb
 //@   props    C02 C15
 //@   requires filler != nil
 //@   ensures  result != nil
+
+// ---------------------------------------------------------------------------------------
+// public API of Bar: every operation is one closure handed to the owner (C10 atomicity:
+// at most one send per call, no state touched outside the closure); after the bar has shut
+// down mutators do nothing and getters read the published final state (C02 late calls)
+
+//@ func (*Bar).IncrInt64
+//@   props    C09 C10 C02
+//@   requires b != nil
+//@   modifies sent(b.operateState), recvd("<-chan struct{}")
+//@   ensures  atomic@C10: sent(b.operateState) <= old(sent(b.operateState)) + 1
+
+//@ func (*Bar).SetCurrent
+//@   props    C09 C10 C02
+//@   requires b != nil
+//@   modifies sent(b.operateState), recvd("<-chan struct{}")
+//@   ensures  atomic@C10: sent(b.operateState) <= old(sent(b.operateState)) + 1
+//@   ensures  ignored@C09: current < 0 ==> sent(b.operateState) == old(sent(b.operateState))
+
+//@ func (*Bar).SetTotal
+//@   props    C09 C10 C02
+//@   requires b != nil
+//@   modifies sent(b.operateState), recvd("<-chan struct{}")
+//@   ensures  atomic@C10: sent(b.operateState) <= old(sent(b.operateState)) + 1
+
+//@ func (*Bar).SetRefill
+//@   props    C09 C10 C02
+//@   requires b != nil
+//@   modifies sent(b.operateState), recvd("<-chan struct{}")
+//@   ensures  atomic@C10: sent(b.operateState) <= old(sent(b.operateState)) + 1
+
+//@ func (*Bar).EnableTriggerComplete
+//@   props    C09 C10 C02
+//@   requires b != nil
+//@   modifies sent(b.operateState), recvd("<-chan struct{}")
+//@   ensures  atomic@C10: sent(b.operateState) <= old(sent(b.operateState)) + 1
+
+//@ func (*Bar).Abort
+//@   props    C09 C10 C02
+//@   requires b != nil
+//@   modifies sent(b.operateState), recvd("<-chan struct{}")
+//@   ensures  atomic@C10: sent(b.operateState) <= old(sent(b.operateState)) + 1
+
+//@ func (*Bar).EwmaIncrInt64
+//@   props    C09 C10 C02 C19
+//@   requires b != nil
+//@   modifies sent(b.operateState), recvd("<-chan struct{}")
+//@   ensures  atomic@C10: sent(b.operateState) <= old(sent(b.operateState)) + 1
+
+//@ func (*Bar).EwmaSetCurrent
+//@   props    C09 C10 C02
+//@   requires b != nil
+//@   modifies sent(b.operateState), recvd("<-chan struct{}")
+//@   ensures  atomic@C10: sent(b.operateState) <= old(sent(b.operateState)) + 1
+//@   ensures  ignored@C09: current < 0 ==> sent(b.operateState) == old(sent(b.operateState))
+
+//@ func (*Bar).Current
+//@   props    C09 C10 C02
+//@   requires b != nil
+//@   modifies sent(b.operateState), recvd()
+//@   ensures  atomic@C10: sent(b.operateState) <= old(sent(b.operateState)) + 1
+//@   ensures  late@C02: sent(b.operateState) == old(sent(b.operateState)) ==> result == b.bs.current
+
+//@ func (*Bar).ID
+//@   props    C09 C10 C02
+//@   requires b != nil
+//@   modifies sent(b.operateState), recvd()
+//@   ensures  atomic@C10: sent(b.operateState) <= old(sent(b.operateState)) + 1
+//@   ensures  late@C02: sent(b.operateState) == old(sent(b.operateState)) ==> result == b.bs.id
+
+//@ func (*Bar).Aborted
+//@   props    C09 C10 C11 C02
+//@   requires b != nil
+//@   modifies sent(b.operateState), recvd()
+//@   ensures  atomic@C10: sent(b.operateState) <= old(sent(b.operateState)) + 1
+//@   ensures  late@C02,C11: sent(b.operateState) == old(sent(b.operateState)) ==> result == b.bs.aborted
+
+//@ func (*Bar).Completed
+//@   props    C09 C10 C11 C02
+//@   requires b != nil
+//@   modifies sent(b.operateState), recvd()
+//@   ensures  atomic@C10: sent(b.operateState) <= old(sent(b.operateState)) + 1
+//@   ensures  late@C02,C11: sent(b.operateState) == old(sent(b.operateState)) ==> result == deref(b.bs).completed()
+
+//@ func (*Bar).IsRunning
+//@   props    C14 C02
+//@   requires b != nil
+//@   modifies recvd("<-chan struct{}")
+
+//@ func (*Bar).Wait
+//@   props    C14 C02
+//@   requires b != nil
+//@   modifies recvd(b.bsOk)
+//@   ensures  recvd(b.bsOk) == old(recvd(b.bsOk)) + 1
+
+// public API of Progress after the container is done (C02): Add returns (nil, ErrDone), Write
+// returns (0, ErrDone); C13: a write that is accepted is applied once, to the writer the
+// container goroutine hands it, with the caller's bytes
+
+//@ func (*Progress).Write$1
+//@   props    C13 C02
+//@   requires w != nil && ch != nil
+//@   ensures  once@C13: called("io.Writer.Write") == old(called("io.Writer.Write")) + 1 && calledWith("io.Writer.Write", 0) == w && calledWith("io.Writer.Write", 1) == b
+//@   ensures  answer@C13: sent(ch) == old(sent(ch)) + 1 && lastSent(ch).n == returned("io.Writer.Write", 0) && lastSent(ch).err == returned("io.Writer.Write", 1)
+
+//@ func (*Progress).Write
+//@   props    C13 C02 C10
+//@   requires p != nil
+//@   ensures  late@C02,C13: sent(p.interceptIO) == old(sent(p.interceptIO)) ==> result0 == 0 && result1 == global("github.com/vbauerster/mpb/v8.ErrDone")
+//@   ensures  atomic@C10: sent(p.interceptIO) <= old(sent(p.interceptIO)) + 1
+
+//@ func (*Progress).Add
+//@   props    C02 C05 C10
+//@   requires p != nil
+//@   ensures  late@C02: sent(p.operateState) == old(sent(p.operateState)) ==> result0 == nil && result1 == global("github.com/vbauerster/mpb/v8.ErrDone")
+//@   ensures  atomic@C10: sent(p.operateState) <= old(sent(p.operateState)) + 1
+
+//@ func (*Progress).UpdateBarPriority
+//@   props    C06 C02 C10
+//@   requires p != nil
+//@   ensures  atomic@C10: sent(p.operateState) <= old(sent(p.operateState)) + 1
+//@   ensures  nilbar@C02: b == nil ==> sent(p.operateState) == old(sent(p.operateState))
+
+//@ func (*Progress).UpdateBarPriority$1
+//@   props    C06 C02
+//@   requires s != nil && b != nil && !closed(s.hm)
+//@   ensures  called("(heapManager).fix") == old(called("(heapManager).fix")) + 1 && calledWith("(heapManager).fix", 1) == b
+//@            && calledWith("(heapManager).fix", 2) == priority && calledWith("(heapManager).fix", 3) == lazy
+
+//@ func (*Progress).traverseBars$1
+//@   props    C02 C05
+//@   requires s != nil && !closed(s.hm) && iter != nil && !closed(iter)
+//@   ensures  called("(heapManager).iter") == old(called("(heapManager).iter")) + 1 && calledWith("(heapManager).iter", 3) == nil
+
+// Shutdown = cancel, then wait for the container goroutine; Wait = wait for the bars, then
+// Shutdown, then the user's wait group: Wait does not wait for completion, only for exits
+//@ func (*Progress).Shutdown
+//@   props    C14 C02
+//@   requires p != nil && p.cancel != nil
+//@   ensures  called("Progress.cancel") == old(called("Progress.cancel")) + 1 && called("(*sync.WaitGroup).Wait") == old(called("(*sync.WaitGroup).Wait")) + 1
+
+//@ func (*Progress).Wait
+//@   props    C14 C02
+//@   requires p != nil && p.cancel != nil
+//@   ensures  called("(*Progress).Shutdown") == old(called("(*Progress).Shutdown")) + 1
+
+// refresh listeners: on cancellation the done channel is closed once and the listener returns
+//@ func (*pState).autoRefreshListener
+//@   props    C14 C04 C02
+//@   requires s != nil && done != nil && !isext(done)
+//@   assumes  owner: !closed(done)
+//@   ensures  closed(done)
+
+//@ func (*pState).manualRefreshListener
+//@   props    C14 C04 C02
+//@   requires s != nil && done != nil && !isext(done)
+//@   assumes  owner: !closed(done)
+//@   ensures  closed(done)
+
+//@ iface BarFillerBuilder.Build
+//@   modifies nothing
+//@   ensures  result != nil
+
+//@ func NopStyle
+//@   props    C02
+//@   trusted
+//@   modifies nothing
+//@   ensures  result != nil
+
+// ---------------------------------------------------------------------------------------
+// remaining helpers (C02 safety: preconditions that the zero-annotation sweep asks for)
+
+//@ func (*Bar).SetPriority
+//@   props    C06 C02
+//@   requires b != nil
+
+//@ func (*Bar).TraverseDecorators$1
+//@   props    C02
+//@   requires s != nil && cb != nil
+
+//@ func (*Bar).tryEarlyRefresh$1
+//@   props    C02 C04
+//@   requires bar != nil
+//@   assumes  otherRunning < 1<<62
+
+//@ func (*Bar).wSyncTable$1
+//@   props    C12 C02
+//@   requires s != nil
+
+//@ func (*Progress).New
+//@   props    C02
+//@   requires p != nil
+
+//@ func (*Progress).MustAdd
+//@   props    C02
+//@   requires p != nil
+
+//@ func (*bState).wSyncTable
+//@   props    C12 C02
+//@   requires s != nil
+//@   modifies nothing
+//@   loop 1   invariant 0 <= start && start <= len(row)
+//@   loop 2   invariant 0 <= start && start <= len(row)
+
+//@ functype bState.extender
+//@   params   stat rows
+//@   requires stat.AvailableWidth >= 0
+//@   modifies pkgstate("decor"), content(), written(), bFiller.tip, sFiller.count, sent("chan int"), recvd("chan int")
+
+//@ func BarFillerOnComplete$1$1
+//@   props    C02 C03
+//@   requires w != nil && base != nil && st.AvailableWidth >= 0
+
+//@ func BarFillerOnAbort$1$1
+//@   props    C02 C03
+//@   requires w != nil && base != nil && st.AvailableWidth >= 0
+
+// extender closures (C15): on a filler error the buffer is reset and the rows are returned
+// with the error; otherwise the buffer ends empty
+//@ func makeExtenderFunc$1
+//@   props    C15 C02
+//@   requires filler != nil && buf != nil && stat.AvailableWidth >= 0
+//@   ensures  onerror@C15: result1 != nil ==> dw(written(buf)) == 0 && result0 == rows
+//@   ensures  drained@C15: result1 == nil ==> dw(written(buf)) == 0
+
+//@ functype makeExtenderFunc$2.base
+//@   params   stat rows
+//@   requires stat.AvailableWidth >= 0
+//@   modifies pkgstate("decor"), content(), written(), bFiller.tip, sFiller.count, sent("chan int"), recvd("chan int")
+
+//@ func makeExtenderFunc$2
+//@   props    C15 C02
+//@   requires base != nil && stat.AvailableWidth >= 0
+//@   loop 1   invariant 0 <= left && right < len(rows) && left + right == len(rows) - 1
+
+//@ func (*Progress).AddBar
+//@   props    C02
+//@   requires p != nil
+//@ func (*Progress).AddSpinner
+//@   props    C02
+//@   requires p != nil
